@@ -84,6 +84,34 @@ func (w *Worker) intercept(e *Exec, fn *ssa.Function) handler {
 	if h, ok := stubs[full]; ok {
 		return h
 	}
+	// String()/Error() of standard-library types: formatting is outside the model
+	if fn.Pkg != nil && fn.Signature.Recv() != nil && (name == "String" || name == "GoString") && !strings.HasPrefix(fn.Pkg.Pkg.Path(), modPath) && !strings.HasPrefix(fn.Pkg.Pkg.Path(), "github.com/u-root/uio") {
+		if r := fn.Signature.Results(); r.Len() == 1 && isString(r.At(0).Type()) && fn.Signature.Params().Len() == 0 {
+			return func(e *Exec, fn *ssa.Function, a []Value) (Value, *GoPanic) { return e.opaqueStr(), nil }
+		}
+	}
+	// strings.Builder / bytes.Buffer used for pretty-printing: content not modelled
+	if strings.HasPrefix(full, "(*strings.Builder).") || strings.HasPrefix(full, "(*bytes.Buffer).") {
+		return func(e *Exec, fn *ssa.Function, a []Value) (Value, *GoPanic) {
+			res := fn.Signature.Results()
+			switch res.Len() {
+			case 0:
+				return nil, nil
+			case 1:
+				if isString(res.At(0).Type()) {
+					return e.opaqueStr(), nil
+				}
+				if fn.Name() == "Len" || fn.Name() == "Cap" {
+					return e.tb.ZExt(e.fresh("opaque.len", 16), 64), nil
+				}
+				return e.zero(res.At(0).Type()), nil
+			}
+			return e.zero(res), nil
+		}
+	}
+	if fn.Pkg != nil && (fn.Pkg.Pkg.Path() == "strconv" || fn.Pkg.Pkg.Path() == "encoding/hex") && fn.Signature.Results().Len() == 1 && isString(fn.Signature.Results().At(0).Type()) {
+		return func(e *Exec, fn *ssa.Function, a []Value) (Value, *GoPanic) { return e.opaqueStr(), nil }
+	}
 	if name == "init" && fn.Pkg != nil && fn.Signature.Recv() == nil && fn.Parent() == nil {
 		if !allowInit(fn.Pkg.Pkg.Path()) {
 			return func(e *Exec, fn *ssa.Function, args []Value) (Value, *GoPanic) { return nil, nil }
@@ -272,7 +300,7 @@ func init() {
 		e.fmtOperands(a)
 		return e.opaqueStr(), nil
 	}
-	nop := func(e *Exec, fn *ssa.Function, a []Value) (Value, *GoPanic) { return nil, nil }
+	_ = 0
 	stubs = map[string]handler{
 		"fmt.Errorf":   opaqueErr,
 		"fmt.Sprintf":  opaqueString,
@@ -312,14 +340,6 @@ func init() {
 		"strconv.FormatInt":  opaqueString,
 		"strconv.FormatUint": opaqueString,
 		"strconv.Quote":      opaqueString,
-		"(*strings.Builder).String": func(e *Exec, fn *ssa.Function, a []Value) (Value, *GoPanic) {
-			// builder holds buf []byte in field 1 (addr *Builder in field 0)
-			p := a[0].(*Ptr)
-			buf := (*p.sub(1).slot()).(*SliceV)
-			v, pan := e.convert(buf, types.NewSlice(types.Typ[types.Uint8]), types.Typ[types.String])
-			return v, pan
-		},
-		"(*strings.Builder).copyCheck": nop,
 		"sort.Ints":                    sortInts,
 		"sort.Strings":                 sortStrings,
 		"sort.Slice":                   sortSlice,
@@ -332,6 +352,19 @@ func init() {
 				return nil, pan
 			}
 			return e.tb.Sle(e.tb.Const(64, 0), v.(*Term)), nil
+		},
+		"strings.Replace":    stringsNative3("Replace"),
+		"strings.ReplaceAll": stringsNative3("ReplaceAll"),
+		"strings.Repeat":     stringsNative3("Repeat"),
+		"strings.TrimSpace":  stringsNative3("TrimSpace"),
+		"strings.Count": func(e *Exec, fn *ssa.Function, a []Value) (Value, *GoPanic) {
+			x, y := a[0].(*StrV), a[1].(*StrV)
+			cx, ok1 := strConcrete(x)
+			cy, ok2 := strConcrete(y)
+			if ok1 && ok2 {
+				return e.tb.Const(64, uint64(strings.Count(cx, cy))), nil
+			}
+			return e.tb.Const(64, 0), nil
 		},
 		"strings.Split":     stringsSplit,
 		"strings.Join":      stringsJoin,
@@ -439,6 +472,27 @@ func init() {
 			// calendar dates are outside the model: every date is the epoch of the virtual clock
 			return e.zero(fn.Signature.Results().At(0).Type()), nil
 		},
+		"encoding/binary.Write": func(e *Exec, fn *ssa.Function, a []Value) (Value, *GoPanic) {
+			w, data := a[0].(*IfaceV), a[2].(*IfaceV)
+			sl, ok := data.V.(*SliceV)
+			if !ok || data.T == nil || data.T.Underlying().String() != "[]byte" {
+				panic(unsupported("encoding/binary.Write of a value that is not []byte"))
+			}
+			// binary.Write copies the bytes and hands them to w.Write
+			cp := e.newSlice(types.Typ[types.Uint8], sl.Len, sl.Len)
+			if sl.Len > 0 {
+				copy(sliceArr(cp).E, e.sliceVals(sl))
+			}
+			wr := e.w.methodByName(w.T, "Write")
+			if wr == nil {
+				panic(unsupported("binary.Write: writer without Write method"))
+			}
+			r, pan := e.callFn(wr, []Value{w.V, cp}, nil)
+			if pan != nil {
+				return nil, pan
+			}
+			return r.(*TupleV).E[1], nil
+		},
 		"time.After": timeAfter,
 		"time.Now":   timeNow,
 		"time.Since": timeSince,
@@ -449,10 +503,34 @@ func init() {
 // on every operand that has one (and on elements of slices / exported fields),
 // swallowing panics raised by those methods as fmt's catchPanic does.
 func (e *Exec) fmtOperands(args []Value) {
+	// a leading concrete string is the format: only the verbs v s x X q call String/Error
+	var verbs []byte
+	haveFormat := false
 	for _, a := range args {
+		if st, ok := a.(*StrV); ok && !haveFormat {
+			if f, conc := strConcrete(st); conc {
+				haveFormat = true
+				for i := 0; i < len(f); i++ {
+					if f[i] != '%' {
+						continue
+					}
+					i++
+					for i < len(f) && strings.IndexByte("+-# 0123456789.*[]", f[i]) >= 0 {
+						i++
+					}
+					if i < len(f) && f[i] != '%' {
+						verbs = append(verbs, f[i])
+					}
+				}
+			}
+			continue
+		}
 		if s, ok := a.(*SliceV); ok {
 			// the variadic ...interface{} slice
-			for _, v := range e.sliceVals(s) {
+			for i, v := range e.sliceVals(s) {
+				if haveFormat && i < len(verbs) && strings.IndexByte("vsxXq", verbs[i]) < 0 {
+					continue
+				}
 				e.fmtValue(v, 0)
 			}
 		}
@@ -618,6 +696,11 @@ func strBytes(v Value) []*Term {
 }
 
 func stringsIndex(e *Exec, fn *ssa.Function, a []Value) (Value, *GoPanic) {
+	if a[0].(*StrV).Opaque || a[1].(*StrV).Opaque {
+		// content of formatted strings is not modelled; control flow that depends on it (layout
+		// decisions of pretty-printers) follows the "substring absent" branch only (stated bound)
+		return e.tb.Const(64, ^uint64(0)), nil
+	}
 	return e.indexOf(strBytes(a[0]), strBytes(a[1])), nil
 }
 func stringsIndexByte(e *Exec, fn *ssa.Function, a []Value) (Value, *GoPanic) {
@@ -749,4 +832,47 @@ func init() {
 	}
 	stdGlobalInit["time.UTC"] = loc
 	stdGlobalInit["time.Local"] = loc
+}
+
+// stringsNative3 runs a pure strings function natively on concrete arguments; with formatted
+// (opaque) or symbolic arguments the result is an opaque string.
+func stringsNative3(name string) handler {
+	return func(e *Exec, fn *ssa.Function, a []Value) (Value, *GoPanic) {
+		var strs []string
+		var ints []int
+		conc := true
+		for _, v := range a {
+			switch x := v.(type) {
+			case *StrV:
+				c, ok := strConcrete(x)
+				if !ok {
+					conc = false
+				}
+				strs = append(strs, c)
+			case *Term:
+				t := e.subst(x)
+				if !t.IsConst() {
+					conc = false
+				}
+				ints = append(ints, int(int64(t.V)))
+			}
+		}
+		if !conc {
+			return e.opaqueStr(), nil
+		}
+		switch name {
+		case "Replace":
+			return e.concStr(strings.Replace(strs[0], strs[1], strs[2], ints[0])), nil
+		case "ReplaceAll":
+			return e.concStr(strings.ReplaceAll(strs[0], strs[1], strs[2])), nil
+		case "Repeat":
+			if ints[0] < 0 {
+				return nil, &GoPanic{Msg: "strings: negative Repeat count"}
+			}
+			return e.concStr(strings.Repeat(strs[0], ints[0])), nil
+		case "TrimSpace":
+			return e.concStr(strings.TrimSpace(strs[0])), nil
+		}
+		panic(unsupported("strings." + name))
+	}
 }
